@@ -10,6 +10,7 @@ import (
 	"verifharness/props/c02"
 	"verifharness/props/c08"
 	"verifharness/props/c09"
+	"verifharness/props/c11"
 	"verifharness/props/c13"
 )
 
@@ -17,6 +18,7 @@ var checks = map[string]func(*core.Ctx) int{
 	"C02": c02.Run,
 	"C08": c08.Run,
 	"C09": c09.Run,
+	"C11": c11.Run,
 	"C13": c13.Run,
 }
 
